@@ -41,6 +41,13 @@ Definition need (n R : N) : N := if n =? 0 then 1 else n + cdiv n R.
 
 (* ---------------------------------------------------------------- lemmas *)
 
+(* lia must never see the two 64-bit literals (it stalls on them): reason through these facts *)
+Lemma isize_lt_usize : isize_max < usize_max.
+Proof. reflexivity. Qed.
+Lemma usize_max_big : 1024 < isize_max.
+Proof. reflexivity. Qed.
+
+
 Lemma npow2_ge x : x <= npow2 x.
 Proof.
   unfold npow2. destruct (N.eq_dec x 0) as [->|Hx]; [cbn; lia|].
